@@ -721,7 +721,9 @@ def _eval_view(cases):
 # arbitrarily strided views as the accessor stream
 
 KVIEW_KERNELS = ['erode', 'erode_bool', 'dilate', 'dilate_bool', 'locmax', 'locmin', 'convolve', 'rank', 'mean', 'tm',
-                 'borders', 'hitmiss', 'bbox', 'com', 'cwatershed', 'line']
+                 'borders', 'hitmiss', 'bbox', 'com', 'cwatershed', 'line',
+                 'regmax', 'regmin', 'close_holes', 'majority']      # round 4: `kind=kviewA` (Model/C08ViewsA.lean)
+KVIEW_A = ('regmax', 'regmin', 'close_holes', 'majority')
 MODES = ['nearest', 'wrap', 'reflect', 'mirror', 'constant', 'ignore']
 
 
@@ -742,7 +744,9 @@ def _kview_setup(c):
         # a 2-D C-array: half of these cases exercise the binary fast path of py_erode / py_dilate (Round 3: the
         # driver dispatches like the C++ and runs `fastBinaryView`, the model with unwritten cells)
         kernel = r.choice(['erode_bool', 'dilate_bool'])
-    isbool = kernel in ('erode_bool', 'dilate_bool', 'hitmiss')
+    if kernel in ('close_holes', 'majority') and nd != 2:      # the wrappers admit matrices only
+        kernel = r.choice(['regmax', 'regmin'])
+    isbool = kernel in ('erode_bool', 'dilate_bool', 'hitmiss', 'close_holes', 'majority')
     hi = 1 if isbool else (3 if kernel in ('borders', 'cwatershed') else 9)
     mem = [r.randint(0, hi) for _ in range(c['buf'])]
     bshape = [r.choice([1, 2, 3, 3]) for _ in range(nd)]
@@ -757,19 +761,21 @@ def _kview_setup(c):
         b = [r.choice([0, 1, 1]) for _ in range(nb)]
     if kernel in ('locmax', 'locmin'):
         pass    # the wrapper removes the centre itself; the model receives the centre-less element (below)
+    if kernel in ('regmax', 'regmin'):
+        mem = [r.randint(0, 2) for _ in range(c['buf'])]       # few levels: plateaus, ties between plateaus
     mode = r.randrange(6)
     if kernel == 'rank' and mode == 5:
         mode = 2
     blayout = r.choice(['C', 'F', 'negstride', 'strided'])
     return dict(kernel=kernel, mem=mem, bshape=bshape, b=b, mode=mode, blayout=blayout, isbool=isbool,
-                rank=r.randrange(max(1, sum(1 for x in b if x))), axis=r.randrange(nd),
+                rank=r.randrange(max(1, sum(1 for x in b if x))), axis=r.randrange(nd), n=r.choice([3, 3, 5]),
                 p=[r.randrange(d) for d in shape], markers=[r.choice([0, 0, 0, 1, 2]) for _ in range(int(np.prod(shape)))])
 
 
 def _kview_line(c, k):
     shape = c['shape']
     b = list(k['b'])
-    if k['kernel'] in ('locmax', 'locmin'):
+    if k['kernel'] in ('locmax', 'locmin', 'regmax', 'regmin'):
         ctr = 0
         for d, cs in zip(k['bshape'], _cstr(k['bshape'])):
             ctr += (d // 2) * cs
@@ -777,7 +783,8 @@ def _kview_line(c, k):
     kern = {'erode_bool': 'erode', 'dilate_bool': 'dilate'}.get(k['kernel'], k['kernel'])
     dt = 'b1' if k['isbool'] and kern in ('erode', 'dilate') else ('u8' if kern in ('erode', 'dilate') else 'i64')
     carr = 1 if list(c['strides']) == _cstr(shape) else 0
-    line = (f"c08 kind=kview kernel={kern} dt={dt} mode={k['mode']} rank={k['rank']} axis={k['axis']} p={gen.enc_arr(k['p'])} "
+    kind = 'kviewA' if kern in KVIEW_A else 'kview'
+    line = (f"c08 kind={kind} kernel={kern} n={k.get('n', 3)} dt={dt} mode={k['mode']} rank={k['rank']} axis={k['axis']} p={gen.enc_arr(k['p'])} "
             f"amem={gen.enc_arr(k['mem'])} abase={c['base']} ashape={gen.enc_shape(shape)} astrides={gen.enc_arr(list(c['strides']))} "
             f"acarray={carr} bmem={gen.enc_arr(b)} bbase=0 bshape={gen.enc_shape(k['bshape'])} "
             f"bstrides={gen.enc_arr(_cstr(k['bshape']))} bcarray=1")
@@ -843,6 +850,12 @@ def _kview_real(c, k):
         mk = np.array(k['markers'], np.int64).reshape(c['shape'])
         r, lines = mahotas.cwatershed(v, mk, Bc=b.astype(bool) if b.any() else None, return_lines=True)
         return dict(out=flat(r), lines=flat(lines), skip=not b.any())
+    if kern in ('regmax', 'regmin'):
+        return dict(out=flat((mahotas.regmax if kern == 'regmax' else mahotas.regmin)(v, b)))
+    if kern == 'close_holes':
+        return dict(out=flat(mahotas.close_holes(v, b)))
+    if kern == 'majority':
+        return dict(out=flat(mahotas.majority_filter(v, k['n'])))
     if kern == 'line':
         ln = np.moveaxis(np.asarray(v), k['axis'], -1)[tuple(x for i, x in enumerate(k['p']) if i != k['axis'])]
         return dict(out=flat(ln))
